@@ -192,7 +192,7 @@ impl Check for C09 {
                 }
                 paths.push(PathSpec::new(vec![POp::M(a.0, a.1), POp::L(b.0, b.1), POp::L(c.0, c.1)]));
                 paths.push(PathSpec::new(vec![POp::M(a.0, a.1), POp::L(b.0, b.1), POp::L(c.0, c.1), POp::Z]));
-                if !q {
+                {
                     let d = g[(s + 4) % g.len()];
                     if d != a && d != b && d != *c {
                         paths.push(PathSpec::new(vec![POp::M(a.0, a.1), POp::L(b.0, b.1), POp::L(c.0, c.1), POp::L(d.0, d.1), POp::Z]));
